@@ -39,6 +39,17 @@ func init() {
 		defer env.Close()
 		return RunHTTP(env, a[0], a[1], a[2])
 	}
+	Modes["router"] = func(a []string) error {
+		if len(a) != 3 {
+			return fmt.Errorf("router <prefix> <cases.json> <out.ndjson>")
+		}
+		env, err := StartEnv(EnvOpts{})
+		if err != nil {
+			return err
+		}
+		defer env.Close()
+		return RunRouter(env, a[0], a[1], a[2])
+	}
 	Modes["abmf"] = func(a []string) error {
 		if len(a) != 3 {
 			return fmt.Errorf("abmf <prefix> <behaviours.json> <out.ndjson>")
